@@ -3,6 +3,7 @@ C16 - template resolution and environment contract.
 Static: loader precedence/ordering rules, who-may-write rules for filters/tests/globals, shape of the instance tests.
 """
 import ast
+import re
 
 from nvsa import pyfront
 from nvsa.report import AnalysisError
@@ -517,8 +518,10 @@ def rule_tests(ctx, px):
             ctx.ob(R, alias_fn.module.rel, f"{alias_fn.short} :: alias cut `{ast.unparse(n)}`", False, "the alias is not the lower-cased name minus a suffix", n.lineno)
             continue
         n_cut += 1
-        k = ast.unparse(up.operand)        # "4"  or  "len(suffix)"
-        terms = pyfront.guard_terms(pyfront.guards_of(alias_fn.node, n) or ())
+        def _fold(t_):      # len('type') -> 4  (a suffix loop written out leaves the literal in place of the loop variable)
+            return re.sub(r"len\((['\"])((?:(?!\1).)*)\1\)", lambda m_: str(len(m_.group(2))), t_)
+        k = _fold(ast.unparse(up.operand))        # "4"  or  "len(suffix)"
+        terms = [(_fold(e_), p_) for e_, p_ in pyfront.guard_terms(pyfront.guards_of(alias_fn.node, n) or ())]
         # enclosing `for suffix in (...)`: the suffix variable ranges over string constants
         ends = [e for e, pol in terms if pol and e.startswith(f"{a_}.endswith(")]
         suffix_ok, len_ok = False, False
